@@ -332,6 +332,9 @@ Proof. split; reflexivity. Qed.
 Lemma fact_client_flags :
   client_processes = true /\ process_sets_closing = true /\ closing_test_first = true /\ closing_test_reads_flag = true.
 Proof. repeat split; reflexivity. Qed.
+Lemma fact_retest :
+  closing_retest_after_open = true /\ closing_retest_reset_code = Some rfc_H3_REQUEST_CANCELLED.
+Proof. split; reflexivity. Qed.
 
 Definition is_some {A} (o : option A) : bool := match o with Some _ => true | None => false end.
 
@@ -357,21 +360,22 @@ Record cl_sim (c : client) (r : rcl) : Prop := {
   cs_closing : c_closing c = is_some (r_limit r);
   cs_ctl : c_ctl c = r_inbox r;
   cs_dead : c_dead c = r_failed r;
-  cs_next : c_next c = r_next r
+  cs_next : c_next c = r_next r;
+  cs_credit : c_credit c = r_credit r;
+  cs_parked : c_parked c = r_parked r
 }.
 
 Lemma cstep_rfc c r o :
   cl_sim c r ->
   fst (cstep c o) = fst (rfc_client_step r o) /\ cl_sim (snd (cstep c o)) (snd (rfc_client_step r o)).
 Proof.
-  intros [Hr Hc Hq Hd Hn]. unfold cstep, rfc_client_step. rewrite Hd.
+  intros [Hr Hc Hq Hd Hn Hcr Hp]. unfold cstep, rfc_client_step. rewrite Hd.
   destruct (r_failed r) eqn:Ef.
   { cbn [fst snd]. split; [reflexivity|]. split; try assumption. congruence. }
-  destruct o as [id| |].
+  destruct o as [id| | | |n].
   - cbn [fst snd]. split; [reflexivity|].
-    split; cbn [c_recv c_closing c_ctl c_dead c_next r_limit r_inbox r_failed r_next]; try assumption.
-    + rewrite Hq. reflexivity.
-    + reflexivity.
+    split; cbn [c_recv c_closing c_ctl c_dead c_next c_credit c_parked rcl_set r_limit r_inbox r_failed r_next r_credit r_parked];
+      try assumption; try reflexivity. rewrite Hq. reflexivity.
   - pose proof (client_goaways_rfc (c_ctl c) (c_recv c) (c_closing c)) as H.
     rewrite Hc, Hr in H. specialize (H eq_refl). rewrite <- Hr, <- Hq in *.
     destruct (client_goaways (c_recv c) (is_some (c_recv c)) (c_ctl c)) as [[recv' closing'] err] eqn:E.
@@ -379,12 +383,30 @@ Proof.
     destruct (rfc_process (r_limit r) (c_ctl c)) as [l bad].
     destruct H as (H1 & H2 & H3). subst recv' closing' err.
     destruct bad; cbn [fst snd]; (split; [reflexivity|]);
-      split; cbn [c_recv c_closing c_ctl c_dead c_next r_limit r_inbox r_failed r_next]; auto.
-  - destruct fact_client_flags as (_ & _ & E1 & E2). rewrite E1, E2, Hc. cbn [andb].
-    destruct (r_limit r) as [l|] eqn:El; cbn [is_some fst snd].
-    + split; [reflexivity|]. split; try assumption; congruence.
-    + rewrite Hn. split; [reflexivity|].
-      split; cbn [c_recv c_closing c_ctl c_dead c_next r_limit r_inbox r_failed r_next]; auto; congruence.
+      split; cbn [cl_drive c_recv c_closing c_ctl c_dead c_next c_credit c_parked rcl_set r_limit r_inbox r_failed r_next r_credit r_parked]; auto.
+  - (* send_request *)
+    unfold send_request_poll.
+    destruct fact_client_flags as (_ & _ & E1 & E2). destruct fact_retest as (E3 & E4).
+    rewrite E1, E2, E3, E4, Hc, Hp, Hcr, Hn. cbn [andb].
+    destruct (r_parked r) eqn:Epk; cbn [negb andb].
+    + destruct (r_credit r =? 0) eqn:Ecr.
+      * cbn [fst snd]. split; [reflexivity|].
+        split; cbn [cl_stream rcl_stream c_recv c_closing c_ctl c_dead c_next c_credit c_parked r_limit r_inbox r_failed r_next r_credit r_parked];
+          try assumption; try congruence. apply N.eqb_eq in Ecr. congruence.
+      * destruct (r_limit r) as [l|] eqn:El; cbn [is_some fst snd]; (split; [reflexivity|]);
+          split; cbn [cl_stream rcl_stream c_recv c_closing c_ctl c_dead c_next c_credit c_parked r_limit r_inbox r_failed r_next r_credit r_parked];
+          try assumption; try congruence.
+    + destruct (r_limit r) as [l|] eqn:El; cbn [is_some].
+      * cbn [fst snd]. split; [reflexivity|]. split; try assumption; congruence.
+      * destruct (r_credit r =? 0) eqn:Ecr; cbn [fst snd]; (split; [reflexivity|]);
+          split; cbn [cl_stream rcl_stream c_recv c_closing c_ctl c_dead c_next c_credit c_parked r_limit r_inbox r_failed r_next r_credit r_parked];
+          try assumption; try congruence.
+  - cbn [fst snd]. split; [reflexivity|].
+    split; cbn [cl_stream rcl_stream c_recv c_closing c_ctl c_dead c_next c_credit c_parked r_limit r_inbox r_failed r_next r_credit r_parked];
+      try assumption; try congruence.
+  - cbn [fst snd]. split; [reflexivity|].
+    split; cbn [cl_stream rcl_stream c_recv c_closing c_ctl c_dead c_next c_credit c_parked r_limit r_inbox r_failed r_next r_credit r_parked];
+      try assumption; try congruence.
 Qed.
 
 Lemma crun_rfc h : forall c r, cl_sim c r -> crun c h = rfc_client_run r h.
@@ -397,6 +419,17 @@ Qed.
 
 Theorem client_is_rfc h : crun client0 h = rfc_client_run rcl0 h.
 Proof. apply crun_rfc. split; reflexivity. Qed.
+
+(* no request is started once a GOAWAY has been processed - whether the call is new or was waiting for a stream *)
+Fixpoint rfc_state (s : rcl) (h : list cop) : rcl :=
+  match h with [] => s | o :: r => rfc_state (snd (rfc_client_step s o)) r end.
+Theorem rfc_no_request_after_goaway s sid :
+  r_limit s <> None -> ~ In (CReqOpened sid) (fst (rfc_client_step s KRequest)).
+Proof.
+  intros Hl. unfold rfc_client_step. destruct (r_failed s); [intros []|].
+  destruct (r_limit s) as [l|]; [|contradiction].
+  destruct (r_parked s); [destruct (r_credit s =? 0)|]; cbn [fst In]; intros [H|[H|[]]]; discriminate H.
+Qed.
 
 (* ---------- the line, read per stream taken by accept(): shown <-> below the last GOAWAY ---------- *)
 Lemma last_wire_In a g : last_wire a = Some g -> In (EWire g) a.
